@@ -239,7 +239,19 @@ for opname in ("__add__", "__rmul__"):
                     m2 = b.new(MAT, b.dict({"NaCl": p1}), natural=nat, norm_type=norm) if opname == "__add__" else p1
                     return dict(args=[m1, m2], env=dict(nat=nat, p0=p0, p1=p1, ms=[_mass("H2O", nat), _mass("NaCl", nat)]))
                 c.scenario(f"{mode}[{'natural' if nat else 'most-abundant-isotopes'}]", pre)
+        if opname == "__add__":
+            # a substance added to a material becomes ONE more component with its amount (it is not dissolved into elements)
+            for mode in ("NUMBER_FRACTION", "MASS_FRACTION"):
+                def pre_s(b, mode=mode):
+                    norm = b.getattr(b.cls(NORM), mode)
+                    p0, p1 = b.real("p0"), b.real("p1")
+                    m1 = b.new(MAT, b.dict({"H2O": p0}), norm_type=norm)
+                    s2 = b.new(SUB, "NaCl", proportion=p1)
+                    return dict(args=[m1, s2], env=dict(nat=True, p0=p0, p1=p1, ms=[_mass("H2O", True), _mass("NaCl", True)]))
+                c.scenario(f"{mode}[substance-operand]", pre_s)
         c.requires("p0 > 0 and p1 > 0")
+        if opname == "__add__":
+            c.ensures("list(result.components.keys()) == ['H2O', 'NaCl'] and [comp.proportion for comp in result.components.values()] == [p0, p1]", "one-component-per-operand-substance-with-its-amount")
         c.ensures("result.natural == self.natural and result.norm_type == self.norm_type", "isotope-mode-and-normalisation-carried-over")
         c.ensures("all([near(comp.component_mass.value('Da'), m) for comp, m in zip(result.components.values(), ms)])", "component-masses-in-the-same-isotope-mode")
         c.fresh("list(result.components.values())", "result-shares-no-component-object-with-an-operand", each=True)
@@ -366,12 +378,17 @@ def _(c):
                 kw = dict(mass_density=b.new(QTY, x, "g/cm3")) if given == "rho" else dict(number_density=b.new(QTY, x, "cm-3"))
                 twin = b.new(SUB, text, **(dict(mass_density=b.new(QTY, x, "g/cm3")) if given == "rho" else dict(number_density=b.new(QTY, x, "cm-3"))))
                 s = b.new(SUB, text, **kw)
-                return dict(args=[s, key, p], env=dict(x=x, p=p, given=given, m0=_mass(text) * DA_G, mk=M.species(key)[0] * DA_G, twin=twin, c0=dict(M.expand_text(text))))
+                # the tables were read once before (printing does that): what is read after add() must be the new state
+                b.call(b.getattr(s, "data_matter"), quantity=False)
+                b.call(b.getattr(s, "data_composite"), quantity=False)
+                return dict(args=[s, key, p], env=dict(x=x, p=p, given=given, m0=_mass(text) * DA_G, mk=M.species(key)[0] * DA_G, twin=twin, c0=dict(M.expand_text(text)), key=key,
+                                                       names=list(M.expand_text(text)) + ([key] if key not in M.expand_text(text) else [])))
             c.scenario(f"{text} {given} add {key}", pre)
     c.requires("x > 0 and p > 0")
     c.ensures("near(self.mass_density.value('g/cm3'), x if given == 'rho' else x * (m0 + p * mk))", "mass-density-is-n-times-the-new-formula-mass")
     c.ensures("near(self.number_density.value('cm-3'), x / (m0 + p * mk) if given == 'rho' else x)", "number-density-is-rho-over-the-new-formula-mass")
     c.ensures("(lambda t: near(t['sum'].data()['rho'], self.mass_density.value('g/cm3')) and near(t['sum'].data()['rho'], sum([t[k].data()['rho'] for k in self.components.keys()])))(self.data_matter(quantity=False))", "component-mass-densities-add-up-to-rho")
+    c.ensures("(lambda t: all([near(t[k].data()['n'], (c0.get(k, 0) + (p if k == key else 0)) * self.number_density.value('cm-3')) for k in names]))(self.data_matter(quantity=False))", "component-number-densities-are-amount-times-n-of-the-new-state")
     c.ensures("counts(twin) == c0 and near(twin.mass_density.value('g/cm3'), x if given == 'rho' else x * m0)", "another-object-built-from-the-same-formula-is-unaffected")
     c.no_raise()
 
